@@ -466,7 +466,7 @@ func runAnchoring(p *Program, c *Collector, a AnchorSpec) {
 		for _, in := range b.Instrs {
 			if call, ok := in.(*ssa.Call); ok && call.Call.StaticCallee() != nil {
 				n := fullFuncName(call.Call.StaticCallee())
-				if n == "regexp.(Regexp).MatchString" || n == "regexp.(Regexp).FindAllString" {
+				if n == "regexp.(Regexp).MatchString" || n == "regexp.(Regexp).FindAllString" || n == "regexp.(Regexp).FindStringSubmatch" || n == "regexp.(Regexp).FindString" {
 					if g := loadedGlobal(call.Call.Args[0]); g != nil {
 						used[p.GlobalKey(g)] = true
 					}
